@@ -13,6 +13,17 @@ IMPORT = '\tvhook "verif.local/mc/vhook"\n'
 replace = {}
 missing = []
 
+def _put(dst, content):
+    # atomic, write-if-changed: several ./check processes may regenerate the overlay concurrently
+    try:
+        if open(dst).read() == content:
+            return
+    except OSError:
+        pass
+    tmp = dst + '.%d.tmp' % os.getpid()
+    open(tmp, 'w').write(content)
+    os.replace(tmp, dst)
+
 def load(rel):
     return open(os.path.join(REPO, rel)).read()
 
@@ -41,12 +52,12 @@ def insert_after(src, rel, sig, stmt, essential):
 
 def emit(rel, src):
     dst = os.path.join(out, rel.replace('/', '__'))
-    open(dst, 'w').write(src)
+    _put(dst, src)
     replace[os.path.join(REPO, rel)] = dst
 
 def addfile(rel, src):
     dst = os.path.join(out, rel.replace('/', '__'))
-    open(dst, 'w').write(src)
+    _put(dst, src)
     replace[os.path.join(REPO, rel)] = dst
 
 # 1. sop.Sleep -> virtual sleep
@@ -180,16 +191,16 @@ r = open(GOROOT + '/src/runtime/rand.go').read()
 a = 'func maps_rand() uint64 {\n\treturn rand()\n}'
 if a not in r:
     print('instr: ESSENTIAL anchor missing in runtime/rand.go', file=sys.stderr); sys.exit(2)
-dst = os.path.join(out, 'runtime__rand.go'); open(dst, 'w').write(r.replace(a, 'func maps_rand() uint64 {\n\treturn 0\n}'))
+dst = os.path.join(out, 'runtime__rand.go'); _put(dst, r.replace(a, 'func maps_rand() uint64 {\n\treturn 0\n}'))
 replace[GOROOT + '/src/runtime/rand.go'] = dst
 r = open(GOROOT + '/src/runtime/alg.go').read()
 if r.count('bootstrapRand()') != 2:
     print('instr: ESSENTIAL anchor missing in runtime/alg.go', file=sys.stderr); sys.exit(2)
 r = r.replace('hashkey[i] = uintptr(bootstrapRand())', 'hashkey[i] = uintptr(0x9E3779B97F4A7C15 * uint64(i+1))')
 r = r.replace('key[i] = bootstrapRand()', 'key[i] = 0x9E3779B97F4A7C15 * uint64(i+1)')
-dst = os.path.join(out, 'runtime__alg.go'); open(dst, 'w').write(r)
+dst = os.path.join(out, 'runtime__alg.go'); _put(dst, r)
 replace[GOROOT + '/src/runtime/alg.go'] = dst
 
-json.dump({'Replace': replace}, open(os.path.join(out, 'overlay.json'), 'w'), indent=1)
-open(os.path.join(out, 'missing.txt'), 'w').write('\n'.join(missing))
+_put(os.path.join(out, 'overlay.json'), json.dumps({'Replace': replace}, indent=1))
+_put(os.path.join(out, 'missing.txt'), '\n'.join(missing))
 print(f'instr: {len(replace)} files in overlay, {len(missing)} optional anchors missing')
